@@ -166,7 +166,7 @@ CHECKS["C15"] = dict(
 
 CHECKS["C16"] = dict(
     technique="property-based testing (rapid) against a reference option router: generated nested graphs with mixed component types x generated call options (undesignated, designated to nodes / paths, misuse kinds, designated callbacks) x sequential and concurrent calls",
-    level_text="Generated nested graphs (Graph and Workflow levels, depth <= 3) with lambdas of two option types, lambdas without options and a document-transformer component; calls carrying 0-5 options each: undesignated component options of each type, options designated to a node, to a nested path or to a graph node, to an unknown node, to a path below a non-graph node, with a wrong option type, and designated callback handlers. Every instrumented node records the option values it received (tagged with the call id). Oracle: a reference router written from the statement gives, per node, the ordered list of values it must receive, and the calls that must fail; equality is required for every node, no value of another call may appear (2-3 calls per case, concurrently in a third of the cases), a designated callback must fire at its node and nowhere outside it.",
+    level_text="Generated nested graphs (Graph and Workflow levels, depth <= 3) with lambdas of two option types, lambdas without options and a document-transformer component; calls carrying 0-5 options each: undesignated component options of each type, options designated to a node, to a nested path or to a graph node, to an unknown node, to a path below a non-graph node, with a wrong option type, and designated callback handlers. Every instrumented node records the option values it received (tagged with the call id). Oracle: a reference router written from the statement gives, per node, the ordered list of values it must receive, and the calls that must fail; equality is required for every node, no value of another call may appear (2-3 calls per case, concurrently in a third of the cases), a designated callback must fire at its node and nowhere outside it. A second part addresses tools nodes: 1-4 WithToolsNodeOption(WithToolOption(...)) groups per call, undesignated or designated (key, nested path, sub-graph node, unknown node), Invoke and Stream; the tool must receive the values of every group addressed to its node, in order.",
     level_note="Designating a graph node is modelled as addressing the nodes of the option's type inside that graph. Tools-node and chat-model options are not generated (their routing goes through the same extractOption code path; their delivery to tools is C17's business).",
     rule="rapid draws the node tree and the calls; non-trivial = nesting depth >= 1, >= 3 component kinds, at least one option designated to a path of length >= 2 and one undesignated option; distinct = FNV-1a of case JSON",
     assumptions=["all values of one WithLambdaOption call share a type (documented precondition)"],
@@ -176,7 +176,7 @@ CHECKS["C16"] = dict(
 
 CHECKS["C10"] = dict(
     technique="property-based testing (rapid) with recording callback handlers: generated graphs x handler supply plans x gated parallel nodes released in generated orders x handler stream behaviours; oracle = exact-once pairing per (handler, unit) derived from the reference model + payload equality + designated-handler isolation; run under the race detector",
-    level_text="Generated graphs (pregel / all-predecessor / workflow, nested) whose top-level lambdas are gated so that parallel nodes overlap and finish in a generated order; handlers are supplied globally (0-2), per call in 0-4 WithCallbacks options with 1-3 handlers each (the slice capacities this produces are the point), and designated to lambda nodes at any nesting level; full handlers and HandlerBuilder handlers for value timings only; Invoke and Stream; every handler reads its stream copy fully, reads a prefix and closes, or closes at once. Units (the run, graph nodes, lambda executions with input and output) come from the reference model. For every full handler that applies to a unit: exactly one start-type and one end-type event carrying the unit's name, value payloads (and fully read stream payloads) equal the unit's input/output; designated handlers are invoked for their node only; the run's result equals the reference whatever handlers do with their copies. Built with -race.",
+    level_text="Generated graphs (pregel / all-predecessor / workflow, nested) whose top-level lambdas are gated so that parallel nodes overlap and finish in a generated order; handlers are supplied globally (0-2), per call in 0-4 WithCallbacks options with 1-3 handlers each (the slice capacities this produces are the point), and designated to lambda nodes at any nesting level; full handlers and HandlerBuilder handlers for value timings only; Invoke and Stream; every handler reads its stream copy fully, reads a prefix and closes, or closes at once. Units (the run, graph nodes, lambda executions with input and output) come from the reference model. For every full handler that applies to a unit: exactly one start-type and one end-type event carrying the unit's name, value payloads (and fully read stream payloads) equal the unit's input/output; designated handlers are invoked for their node only; the run's result equals the reference whatever handlers do with their copies. Built with -race. Tool calls are units too: a second part runs a graph around a ToolsNode and requires that a handler passed with the call and a handler registered globally each see every tool call exactly once at its start and once at its end.",
     level_note="Only clean runs are judged (failing or timing-dependent runs are counted and skipped). Tool-call units are exercised in C17. Parallel overlap is produced by gates and observed (label gated-bodies-overlapped); the interleaving inside the framework is the Go scheduler's.",
     rule="rapid draws a GraphSpec, paradigm, handler supply plan and release order; non-trivial = (>= 2 designated handlers on top-level nodes, >= 2 gated bodies observed waiting at the same time, per-call handlers in >= 2 options) or (Stream paradigm with a full handler closing its copy early and >= 2 executions); distinct = FNV-1a of case JSON",
     assumptions=GRAPH_ASSUME,
@@ -214,7 +214,7 @@ CHECKS["C18"] = dict(
 
 CHECKS["C09"] = dict(
     technique="property-based testing (rapid) of concurrent use under the race detector: generated compiled objects (graphs of all kinds, ReAct agent, host multi-agent) x N concurrent callers x mixed paradigms; oracle = single-run reference per call + isolation of per-call data + race reports classified by stack frames",
-    level_text="Generated graphs of every kind (state with handlers and ProcessState, branches, nesting, native paradigm subsets), the ReAct agent (with and without return-directly tools, MessageModifier, streamed model output), the host multi-agent and a graph around a ToolsNode (some calls passing their own tool list with the WithToolList call option) are each compiled once and then called from 2-8 goroutines x 1-3 calls with distinct inputs, the calling paradigms mixed, a start barrier and yields inside node bodies. Oracle: every call's result (and executed (node,input) multiset, model histories, tool invocations) equals what the reference model / reference loop gives for that call alone; a per-call callback handler sees exactly its own call; no state object is seen by two calls; everything is built with -race and a race report whose accesses lie in non-harness frames of the eino module is a violation (reports confined to harness frames make the run inconclusive).",
+    level_text="Generated graphs of every kind (state with handlers and ProcessState, branches, nesting, native paradigm subsets), the ReAct agent (with and without return-directly tools, MessageModifier, streamed model output), the host multi-agent a graph around a ToolsNode (some calls passing their own tool list with the WithToolList call option) and a Workflow whose node input (struct, pointer or map) is assembled by field mappings are each compiled once and then called from 2-8 goroutines x 1-3 calls with distinct inputs, the calling paradigms mixed, a start barrier and yields inside node bodies. Oracle: every call's result (and executed (node,input) multiset, model histories, tool invocations) equals what the reference model / reference loop gives for that call alone; a per-call callback handler sees exactly its own call; no state object is seen by two calls; everything is built with -race and a race report whose accesses lie in non-harness frames of the eino module is a violation (reports confined to harness frames make the run inconclusive).",
     level_note="The race detector judges executed interleavings only; absence of a report is weak evidence. The Go scheduler is not owned.",
     rule="rapid draws the object, worker and call counts, inputs and paradigms; non-trivial = >= 3 calls on an object with state, branches or nesting (graphs) / on an agent with a non-empty script; distinct = FNV-1a of case JSON",
     assumptions=GRAPH_ASSUME,
